@@ -33,7 +33,7 @@ def main():
             dest = os.path.join(ROOT, 'seeded', '%s-%s' % (tag, n))
             if not os.path.exists(cf) or os.path.exists(os.path.join(dest, 'meta.json')):
                 continue
-            c = json.load(open(cf))
+            c = json.loads(open(cf).read().replace('\\', '/').replace('\t', ' '))
             meta = json.load(open(os.path.join(d, 'mut%s_meta.json' % n)))
             if not confirmed(c):
                 print(pid, n, 'NOT confirmed:', {k: c.get(k) for k in ('applies', 'demo_clean_exit', 'demo_mutated_exit', 'suite_summary')})
